@@ -114,7 +114,7 @@ where
     let pad = shape.padded();
     let rounds = pad.trailing_zeros() as usize;
     let (n1, _n2) = shape.gates();
-    let pc = PedersenGens::<SymA<C>>::default();
+    let pc = pc_for::<SymA<C>>(&shape.name, seed);
     let bp = BulletproofGens::<SymA<C>>::new(pad, 1);
     let bases = name_bases(&pc, &bp, pad);
     let shr = new_shared::<SymA<C>>(shape, &Default::default(), Box::new(SymVals::<C::ScalarField>::new(seed)));
@@ -277,7 +277,7 @@ pub fn c04_native<G: AffineRepr + 'static>(case: &C04Case, seed: u64) -> Vec<(St
     let shape = &case.shape;
     let pad = shape.padded();
     let rounds = pad.trailing_zeros() as usize;
-    let pc = PedersenGens::<G>::default();
+    let pc = pc_for::<G>(&shape.name, seed);
     let bp = BulletproofGens::<G>::new(pad, 1);
     let shr = new_shared::<G>(shape, &Default::default(), Box::new(PlainVals::<G::ScalarField>::new(Default::default(), seed)));
     let (proof, _) = prove_shape(shape, &shr, &pc, &bp, seed);
@@ -507,7 +507,7 @@ pub fn bitflip_native<G: AffineRepr + 'static>(seed: u64, stride: usize) -> Vec<
     use crate::r1cs::Op::*;
     for shape in [Shape::new("two_gates", &[Commit, AllocMul, Mul, Con], &[]), Shape::new("two_phase_1_2", &[Commit, AllocMul, Con], &[&[Chal, AllocMul, Mul, Con]])] {
         let pad = shape.padded();
-        let pc = PedersenGens::<G>::default();
+        let pc = pc_for::<G>(&shape.name, seed);
         let bp = BulletproofGens::<G>::new(pad, 1);
         let shr = new_shared::<G>(&shape, &Default::default(), Box::new(PlainVals::<G::ScalarField>::new(Default::default(), seed)));
         let (proof, _) = prove_shape(&shape, &shr, &pc, &bp, seed);
